@@ -100,6 +100,8 @@ type scope struct {
 	body   []stmt
 	final  expr // value of the last statement (never a block literal)
 
+	boundary bool // root only: program of the slot-limit class
+
 	// generator hints
 	pk       []byte // probable kind of each parameter
 	pa       []int  // arity of block parameters
@@ -471,7 +473,7 @@ type machine struct {
 }
 
 func newMachine() *machine {
-	return &machine{fuel: 4000, maxInt: 1_000_000_000_000, maxDeep: 40}
+	return &machine{fuel: 6000, maxInt: 1_000_000_000_000, maxDeep: 40}
 }
 
 func (m *machine) id() int { m.nextID++; return m.nextID }
